@@ -13,6 +13,20 @@ func init() {
 	register(&propDef{id: "C16", run: runC16, controls: controlsC16})
 }
 
+var fontscanPairs = []layoutPair{
+	{"serializeFloat", "deserializeFloat"},
+	{"serializeString", "deserializeString"},
+	{"serializeAspect", "deserializeAspectFrom"},
+	{"Footprint.serializeTo", "Footprint.deserializeFrom"},
+	{"serializeFootprintsTo", "deserializeFootprints"},
+	{"fileFootprints.serializeTo", "fileFootprints.deserializeFrom"},
+	{"systemFontsIndex.serializeTo", "deserializeIndex"},
+	{"RuneSet.serialize", "RuneSet.deserializeFrom"},
+	{"ScriptSet.serialize", "ScriptSet.deserializeFrom"},
+	{"LangSet.serialize", "LangSet.deserializeFrom"},
+	{"timeStamp.serialize", "timeStamp.deserialize"},
+}
+
 func isFontscanReader(p *Prog) func(f *ssa.Function) bool {
 	return func(f *ssa.Function) bool {
 		if fnPkg(f) == nil || fnPkg(f).Path() != p.pkgPath("fontscan") {
@@ -28,6 +42,8 @@ func runC16(p *Prog, r *Report) {
 	ruleGenReaders(p, r, "R-GEN", isFontscanReader(p), nil, 8)
 	r.Explain = append(r.Explain, "R-ERR: the error of every deserialize* call is returned or tested on all paths; the one deliberate discard (refreshSystemFontsIndex) feeds a value that is only handed to scanFontFootprints.")
 	ruleErr(p, r)
+	r.Explain = append(r.Explain, "R-LAYOUT: each serialize* function of the index and its deserialize* sibling go through the same sequence of layout items — fixed-width integers (binary.BigEndian.PutUintN / UintN), single bytes, raw byte runs, nested records (a call of another writer / of its sibling reader) — with the same widths, the same constant offsets and strides (named constants folded), the same loop nesting and, where both sides name one, the same struct field. A necessary condition of the round trip; values, clamping and lengths are not decided.")
+	ruleLayout(p, r, "fontscan", fontscanPairs, []string{"systemFontsIndex.serializeToFile", "deserializeIndexFile"}, 10)
 	r.Assumptions = append(r.Assumptions, "integer overflow of offset arithmetic is not modelled", "compress/gzip and bytes.Buffer are trusted", "incremental refresh versus from-scratch scan over file-system histories is behaviour over an external mutable world and is NOT decided; writer/reader layout agreement (round trip) is NOT decided in this revision")
 	r.NotDecided = append(r.NotDecided, "round-trip equality of the index", "refresh equals rescan after any history of file-system changes")
 }
@@ -85,4 +101,8 @@ func controlsC16(cp *Prog, r *Report) {
 			return fnPkg(f) != nil && fnPkg(f).Path() == "ctl/des"
 		}, nil, 4)
 	}, "(*des.entry).readBad", "des.stringBad", "des.stampCallerBad", "des.docWrapBad", "des.signBad", "des.fillBad")
+	expectControl(r, "R-LAYOUT", func(cr *Report) {
+		ruleLayout(cp, cr, "lay", []layoutPair{{"serializeGood", "deserializeGood"}, {"serializeSwap", "deserializeSwap"}, {"serializeWidth", "deserializeWidth"},
+			{"serializeStride", "deserializeStride"}, {"serializeNested", "deserializeNested"}}, nil, 5)
+	}, "lay.serializeSwap <-> deserializeSwap", "lay.serializeWidth <-> deserializeWidth", "lay.serializeStride <-> deserializeStride", "lay.serializeNested <-> deserializeNested")
 }
